@@ -29,7 +29,7 @@ pub enum Action {
     /// into_writer(), `writes` parts of one complete raw response with `body` bytes
     Raw { writes: usize, body: usize, flush: bool },
     /// a complete raw response written with another method of `Write` than write_all:
-    /// style 1 = write_vectored (two slices per call), 2 = plain write() of <= 7 bytes
+    /// style 1 = write_vectored (two slices per call), 2 = plain write() of <= 64 bytes
     RawStyle { style: usize, body: usize },
     /// the request is dropped: automatic 500
     Drop,
@@ -118,7 +118,6 @@ pub fn actions(tier: Tier) -> Vec<Action> {
         v.push(Action::Raw { writes: 2, body: 1500, flush: false });
         v.push(Action::Raw { writes: 1, body: 1500, flush: true });
         v.push(Action::RawStyle { style: 2, body: 10 });
-        v.push(Action::RawStyle { style: 2, body: 1500 });
     }
     v
 }
@@ -325,7 +324,7 @@ pub fn seam_body(sc: SeamScenario, obs: Arc<Mutex<SeamObs>>) {
                         } else {
                             let mut off = 0;
                             while off < p.len() {
-                                match w.write(&p[off..(off + 7).min(p.len())]) {
+                                match w.write(&p[off..(off + 64).min(p.len())]) {
                                     Ok(n) if n > 0 => off += n,
                                     _ => break,
                                 }
@@ -543,7 +542,7 @@ impl Check for C01 {
     }
     fn rule(&self, tier: Tier) -> String {
         format!(
-            "answer actions {:?} (rawv / raww = a raw response written through write_vectored / through plain write() calls of at most 7 bytes instead of write_all); n=2: every program, handler threads started in both forced orders (bound 0), all at once (strict bound 2), with the second request sent while the first handler already runs (connection thread parsing concurrently, bound 1), and at the SequentialWriter seam (ALL interleavings, unbounded); n=3: every program over 6 actions with all 6 forced orders, racing at strict bound 1{}; pipelines of 65 and 130 (thorough: 16, 65, 130, 300, 1030) requests with three programs (all respond / respond, unused writer, drop, two-part writer in turn / one respond followed by unused writers) answered in reverse, rotated and odd-then-even order at the default schedule; {} scenarios; oracle: the client stream parses into complete messages whose (status, request id) sequence is the request order (writers that emit nothing are skipped, a dropped request shows as 500), bodies carry their own request id, no hang; non-trivial = all",
+            "answer actions {:?} (rawv / raww = a raw response written through write_vectored / through plain write() calls of at most 64 bytes instead of write_all); n=2: every program, handler threads started in both forced orders (bound 0), all at once (strict bound 2), with the second request sent while the first handler already runs (connection thread parsing concurrently, bound 1), and at the SequentialWriter seam (ALL interleavings, unbounded); n=3: every program over 6 actions with all 6 forced orders, racing at strict bound 1{}; pipelines of 65 and 130 (thorough: 16, 65, 130, 300, 1030) requests with three programs (all respond / respond, unused writer, drop, two-part writer in turn / one respond followed by unused writers) answered in reverse, rotated and odd-then-even order at the default schedule; {} scenarios; oracle: the client stream parses into complete messages whose (status, request id) sequence is the request order (writers that emit nothing are skipped, a dropped request shows as 500), bodies carry their own request id, no hang; non-trivial = all",
             actions(tier).iter().map(|a| a.label()).collect::<Vec<_>>(),
             if tier == Tier::Thorough { " and at the seam at chess bound 2, plus chess bound 3 at the seam for the 27 programs over {respond, raw writer in two flushed parts, unused raw writer}; n=4: 4 actions, all 24 forced orders" } else { " and at the seam at chess bound 1; n=4: 3 actions (respond, unused raw writer, drop), all 24 forced orders" },
             items(tier).len()
